@@ -331,6 +331,13 @@ def eval_randgraph(h, fn, count, edge, connectivity, ensurelink, rmode, smode):
             return Seq(rot[:k], "list")
         return Seq(items[:k] if smode == "first" else items[len(items) - k:], "list")
 
+    def choice(I, seq):
+        items = I.iterate(seq)
+        if not items:
+            raise Raised(B.mkexc("IndexError", "Cannot choose from an empty sequence"))
+        return items[0] if rmode == "lo" else items[-1]
+
+    h.w.ext_overrides["random.choice"] = Builtin("random.choice", choice)
     h.w.ext_overrides["random.randint"] = Builtin("random.randint", randint)
     h.w.ext_overrides["random.sample"] = Builtin("random.sample", sample)
     h.reset()
@@ -351,11 +358,35 @@ def _eval_jobs(arg):
     for job in jobs:
         count, edge, conn, ens, rmode, smode = job
         try:
-            out, samples = eval_randgraph(h, fn, count, edge, conn, ens, rmode, smode)
-            out_.append((job, check_result(h, out, count, edge, ens), samples, None))
+            try:
+                out, samples = eval_randgraph(h, fn, count, edge, conn, ens, rmode, smode)
+                why = check_result(h, out, count, edge, ens)
+            except Unknown as u0:
+                if "set-order" not in str(u0) and "set-pop" not in str(u0):
+                    raise
+                # the code iterates a set: reproducibility is decided by comparing two iteration orders under the same random draws
+                shapes, why = [], None
+                for order in ("insertion", "reversed"):
+                    h.w.set_order = order
+                    try:
+                        out, samples = eval_randgraph(h, fn, count, edge, conn, ens, rmode, smode)
+                        why = why or check_result(h, out, count, edge, ens)
+                        shapes.append(shape_of(out))
+                    finally:
+                        h.w.set_order = "fork"
+                if why is None and shapes[0] != shapes[1]:
+                    why = f"with identical random draws the result depends on the iteration order of a set ({shapes[0]} vs {shapes[1]}): seeding the random module does not make it reproducible"
+            out_.append((job, why, samples, None))
         except Unknown as u:
             out_.append((job, None, [], str(u)))
     return out_
+
+
+def shape_of(out):
+    if out.kind != "return" or not isinstance(out.value, Obj):
+        return repr(out)
+    ms = out.value.fields["_vertices"].items
+    return [(m.fields.get("i"), [tuple(e.fields.get("i") if isinstance(e, Obj) else None for e in l.fields["_vertices"].items) for l in m.fields["_links"].items]) for m in ms]
 
 
 def check_result(h, out, count, edge, ensurelink):
@@ -469,9 +500,9 @@ def det(ctx, res, prog):
             if isinstance(node, ast.Call):
                 s = ast.unparse(node.func)
                 if s in ("random.Random", "random.SystemRandom", "os.urandom", "secrets.choice", "secrets.randbelow", "time.time", "uuid.uuid4", "id", "hash") or s.startswith("secrets.") or s.startswith("numpy.random"):
-                    res.violation("DET", q, "source=" + s, f"{f.rel}:{node.lineno}: {s}() is a source of non-determinism that seeding the random module does not control")
+                    res.note(f"DET pointer: {f.rel}:{node.lineno} {q} calls {s}() - a source that seeding the random module does not control, if the result depends on it")
             if isinstance(node, (ast.For, ast.comprehension)):
                 it = node.iter
                 if isinstance(it, (ast.Set, ast.SetComp)) or isinstance(it, ast.Call) and ast.unparse(it.func) in ("set", "frozenset"):
-                    res.violation("DET", q, "set-iteration", f"{f.rel}:{getattr(node, 'lineno', f.node.lineno)}: iteration over a set decides the shape of the result")
+                    res.note(f"DET pointer: {f.rel}:{getattr(node, 'lineno', f.node.lineno)} {q} iterates over a set (the evaluation compares two iteration orders)")
     res.rule("DET", n)
